@@ -88,7 +88,7 @@ class _InlineFunction(XPathFunction):
     def source(self) -> str:
         if self.label == 'function test':
             if len(self.sequence_types) == 1 and self.sequence_types[0] == '*':
-                return 'function(*)'
+                return 'function(*)' + self.occurrence
             else:
                 return 'function(%s) as %s' % (
                     ', '.join(self.sequence_types[:-1]), self.sequence_types[-1]
